@@ -16,7 +16,7 @@ pub fn def() -> PropDef {
         job_level,
         run_job,
         replay,
-        rule: "programs: every action-menu config (U1), the curated feature-interaction configs (U3) and every parsing seed of C03 with <= 60 nodes that the parser accepts. Rewrites applied at EVERY applicable site (bound 1) and, for programs <= 60 nodes (thorough: 90), every PAIR of sites with the second rewrite applied to the result of the first (bound 2): (R1) an action in a deflayer -> @alias with the defalias placed before first use; (R2) an atom or list argument inside an action -> $var (defvar at the top); (R3) any action or argument -> (t! tN) of a zero-parameter deftemplate; (R3p) -> (t! tN <node>) of the identity template (deftemplate tN (p) $p), which nests expansions inside template arguments at bound 2; (R4) a top-level form -> expansion of a template whose body is (if-equal x x <form>); (R5) a top-level form -> an included file; (R6) a top-level form -> (platform (linux) <form>); (R7) a deflayer -> the equivalent deflayermap listing every defsrc key; (R7w) the same plus a `_` wildcard entry, written first or last, which with every key listed explicitly applies to none. Oracle: accepted iff accepted; equal renderings of every layer cell of every mapped key and virtual key, key_outputs, mapped keys, overrides, sequence trie entries (hook H4), virtual key names, layer names, zippy dictionary and switch timing; plus lock-step behaviour: both configs run on ALL physically consistent histories of D steps over press/release of a,b,c + tick 1 + tick 6, outputs identical (every rewrite at bound 1 on the generated universes; a deterministic 1-in-25 subset at bound 2 in quick, 1-in-5 in thorough; D=3 quick, 4 thorough). programs = rewritten programs compared; disagreements_checked = comparisons made.",
+        rule: "programs: every action-menu config (U1), the curated feature-interaction configs (U3) and every parsing seed of C03 with <= 60 nodes that the parser accepts. Rewrites applied at EVERY applicable site (bound 1) and, for programs <= 60 nodes (thorough: 90), every PAIR of sites with the second rewrite applied to the result of the first (bound 2): (R1) an action in a deflayer -> @alias with the defalias placed before first use; (R2) an atom or list argument inside an action -> $var (defvar at the top); (R2s) a list argument in which an atom occurs twice -> $var of a defvar whose value refers twice to another variable, directly or through two further variables (a diamond of references); (R3) any action or argument -> (t! tN) of a zero-parameter deftemplate; (R3p) -> (t! tN <node>) of the identity template (deftemplate tN (p) $p), which nests expansions inside template arguments at bound 2; (R4) a top-level form -> expansion of a template whose body is (if-equal x x <form>); (R5) a top-level form -> an included file; (R6) a top-level form -> (platform (linux) <form>); (R7) a deflayer -> the equivalent deflayermap listing every defsrc key; (R7w) the same plus a `_` wildcard entry, written first or last, which with every key listed explicitly applies to none. Oracle: accepted iff accepted; equal renderings of every layer cell of every mapped key and virtual key, key_outputs, mapped keys, overrides, sequence trie entries (hook H4), virtual key names, layer names, zippy dictionary and switch timing; plus lock-step behaviour: both configs run on ALL physically consistent histories of D steps over press/release of a,b,c + tick 1 + tick 6, outputs identical (every rewrite at bound 1 on the generated universes; a deterministic 1-in-25 subset at bound 2 in quick, 1-in-5 in thorough; D=3 quick, 4 thorough). programs = rewritten programs compared; disagreements_checked = comparisons made.",
         assumptions: &["rewrites are applied only where config.adoc documents them as available (actions and their arguments inside deflayer; top-level forms other than defcfg/defsrc for include)", "behavioural comparison is bounded by D; table equality is complete"],
         required_level,
         min_outcomes: 3,
@@ -83,6 +83,9 @@ fn render(cfg: &str, files: &Files) -> Result<String, String> {
 enum Rw {
     Alias,
     Var,
+    /// a list argument in which the same atom occurs twice -> $var of a defvar whose value refers TWICE to
+    /// another variable (directly, or through two further variables: a diamond)
+    VarShared,
     Template0,
     TemplateId,
     IfEqual,
@@ -92,7 +95,7 @@ enum Rw {
     /// deflayermap listing every defsrc key AND a `_` wildcard entry (which then applies to no key)
     LayerMapWild,
 }
-const RWS: [Rw; 9] = [Rw::Alias, Rw::Var, Rw::Template0, Rw::TemplateId, Rw::IfEqual, Rw::Include, Rw::Platform, Rw::LayerMap, Rw::LayerMapWild];
+const RWS: [Rw; 10] = [Rw::Alias, Rw::Var, Rw::VarShared, Rw::Template0, Rw::TemplateId, Rw::IfEqual, Rw::Include, Rw::Platform, Rw::LayerMap, Rw::LayerMapWild];
 
 fn head_of<'a>(t: &'a str, nodes: &[Node], i: usize) -> &'a str {
     // first atom child of list node i
@@ -138,7 +141,7 @@ fn apply(t: &str, files: &Files, nodes: &[Node], ni: usize, rw: Rw, uid: usize) 
     // arguments of an expansion are passed as text (config.adoc example 5: "defvar is parsed AFTER template
     // expansion"), so when the program uses template conditionals a rewritten argument is compared as text
     if let Some(p) = n.parent {
-        if is_expand_head(head_of(t, nodes, p)) && t.contains("(if-") && matches!(rw, Rw::Var | Rw::Template0 | Rw::TemplateId) {
+        if is_expand_head(head_of(t, nodes, p)) && t.contains("(if-") && matches!(rw, Rw::Var | Rw::VarShared | Rw::Template0 | Rw::TemplateId) {
             return None;
         }
     }
@@ -176,6 +179,34 @@ fn apply(t: &str, files: &Files, nodes: &[Node], ni: usize, rw: Rw, uid: usize) 
             }
             let name = format!("vv{uid}");
             Some((replace(&format!("${name}"), &format!("(defvar {name} {me})")), files.clone()))
+        }
+        Rw::VarShared => {
+            if !(in_deflayer && depth_in_top >= 2 && idx_in_parent >= 1) || !n.is_list || me_is_expansion || contains_expansion {
+                return None;
+            }
+            let kids: Vec<&Node> = nodes.iter().filter(|m| m.parent == Some(ni)).collect();
+            let atom_ok = |k: &Node| {
+                let a = &t[k.start..k.end];
+                !k.is_list && !a.starts_with('$') && !a.starts_with('@') && !a.starts_with('"') && a != "_"
+            };
+            let mut pair = None;
+            'p: for i in 1..kids.len() {
+                for j in i + 1..kids.len() {
+                    if atom_ok(kids[i]) && atom_ok(kids[j]) && t[kids[i].start..kids[i].end] == t[kids[j].start..kids[j].end] {
+                        pair = Some((kids[i], kids[j]));
+                        break 'p;
+                    }
+                }
+            }
+            let (ki, kj) = pair?;
+            let atom = &t[ki.start..ki.end];
+            let (r1, r2, mid) = if uid % 2 == 0 {
+                (format!("$uu{uid}"), format!("$uu{uid}"), String::new())
+            } else {
+                (format!("$ua{uid}"), format!("$ub{uid}"), format!(" ua{uid} $uu{uid} ub{uid} $uu{uid}"))
+            };
+            let inner = format!("{}{}{}{}{}", &t[n.start..ki.start], r1, &t[ki.end..kj.start], r2, &t[kj.end..n.end]);
+            Some((replace(&format!("$vv{uid}"), &format!("(defvar uu{uid} {atom}{mid} vv{uid} {inner})")), files.clone()))
         }
         Rw::Template0 | Rw::TemplateId => {
             if !(in_deflayer && ((depth_in_top == 1 && idx_in_parent >= 2) || (depth_in_top >= 2 && idx_in_parent >= 1))) {
@@ -273,6 +304,10 @@ fn programs() -> &'static Vec<Prog> {
         }
         for i in 0..super::c01::CURATED.len() {
             v.push(Prog { tag: format!("U3/{}", super::c01::CURATED[i].0), text: super::c01::curated_cfg(i), files: Files::default(), generated: true });
+        }
+        // programs with list arguments that repeat an atom (sites of the shared-variable rewrite)
+        for (i, a) in ["(multi (tap-hold 5 5 x lsft) lctl)", "(tap-dance 6 ((macro y y) (tap-hold 4 4 z lalt) x))", "(fork (multi x x) (macro 3 3 y) (lsft lsft))", "(switch ((and a a)) (multi y y) break () (macro z 2 2 z) break)"].iter().enumerate() {
+            v.push(Prog { tag: format!("U4/shared-values-{i}"), text: cfg3(a, "b", "c", &o), files: Files::default(), generated: true });
         }
         let sample_files = super::c03::sample_files();
         for s in super::c03::seeds() {
